@@ -565,6 +565,16 @@ func (l *Ledger) ConfirmBlock(block *pb.InternalBlock, isRoot bool) ConfirmStatu
 	blkTimer := timer.NewXTimer()
 	l.xlog.Info("start to confirm block", "blockid", utils.F(block.Blockid), "txCount", len(block.Transactions))
 	var confirmStatus ConfirmStatus
+	// a refused block must leave nothing behind: by the time it is refused its own header and the
+	// headers a trunk switch would have changed are already in the header cache, which later
+	// confirmations trust over the database
+	defer func() {
+		if !confirmStatus.Succ {
+			for _, key := range l.blkHeaderCache.Keys() {
+				l.blkHeaderCache.Del(key)
+			}
+		}
+	}()
 	dummyTransactions := []*pb.Transaction{}
 	realTransactions := block.Transactions // 真正的交易转存到局部变量
 	block.Transactions = dummyTransactions // block表不保存transaction详情
